@@ -113,12 +113,20 @@ type Ticker struct {
 	last    consensus.VerifTimeoutInfo // last accepted schedule request (kept after firing, like the real routine)
 	Pending bool
 	c       chan consensus.VerifTimeoutInfo
+	// OnStart, if set, runs when the consensus state starts its ticker: in ConsensusState.OnStart that is after the WAL
+	// catch-up and immediately before the receive routine is launched.
+	OnStart func()
 }
 
 func NewTicker() *Ticker {
 	return &Ticker{last: *consensus.EmptyTimeoutInfo(), c: make(chan consensus.VerifTimeoutInfo)}
 }
-func (m *Ticker) Start() error                            { return nil }
+func (m *Ticker) Start() error {
+	if m.OnStart != nil {
+		m.OnStart()
+	}
+	return nil
+}
 func (m *Ticker) Stop() error                             { return nil }
 func (m *Ticker) Chan() <-chan consensus.VerifTimeoutInfo { return m.c }
 func (m *Ticker) SetLogger(log.Logger)                    {}
